@@ -1,12 +1,12 @@
 package props
 
 import (
-	"sync/atomic"
 	"fmt"
 	"math/rand"
 	"regexp"
 	"sort"
 	"strings"
+	"sync/atomic"
 	"time"
 
 	"github.com/zitadel/saml/pkg/provider"
